@@ -4,7 +4,8 @@ Require Import Csvq.Model.Base Csvq.Model.Value Csvq.Model.Conv Csvq.Model.Compa
                Csvq.Model.Key Csvq.Model.SortVal Csvq.Model.Query Csvq.Model.Analytic Csvq.Harness.HQuery.
 Open Scope Z_scope.
 
-Record acase := mkA { aid : N; astrict : bool; arows : list row; afn : afun; acl : aclause; aobs : res (list row) }.
+(* aouter: the query's own ORDER BY (select-list positions), applied after the analytic function *)
+Record acase := mkA { aid : N; astrict : bool; arows : list row; afn : afun; acl : aclause; aouter : list okey; aobs : res (list row) }.
 
 Definition a_model_ok (c : acase) : bool :=
   match analyze (astrict c) (afn c) (acl c) (arows c), aobs c with
@@ -50,13 +51,23 @@ Definition a_frame_ok (c : acase) : bool :=
   | Err _ => true
   end.
 
+(* the query's own ORDER BY after an analytic function: the observed rows must be sorted by it *)
+Definition a_outer_ok (c : acase) : bool :=
+  match aouter c, aobs c with
+  | [], _ => true
+  | ord, Ok o => no_inversion (dirs_of ord) (map (out_keys (astrict c) ord) o)
+  | _, Err _ => true
+  end.
+
 (* kinds: 1 = differs from the model; 2 = LAST_VALUE is not the last value of the row's frame;
-   3 = other columns or the number of rows changed; 4 = oracle inconsistent *)
+   3 = other columns or the number of rows changed; 4 = oracle inconsistent;
+   5 = the result is not sorted by the query's own ORDER BY *)
 Definition check_analytic (cs : list acase) : list (N * N) :=
   flat_map (fun c =>
     (if forallb (forallb val_wf) (arows c) then [] else [(4%N, aid c)]) ++
     (if a_model_ok c then [] else [(1%N, aid c)]) ++
     (if a_spec_ok c then [] else [(2%N, aid c)]) ++
-    (if a_frame_ok c then [] else [(3%N, aid c)])) cs.
+    (if a_frame_ok c then [] else [(3%N, aid c)]) ++
+    (if a_outer_ok c then [] else [(5%N, aid c)])) cs.
 
 Definition expected_analytic (c : acase) := (aid c, analyze (astrict c) (afn c) (acl c) (arows c)).
